@@ -187,9 +187,46 @@ func zzC03Bits(n int, pad int) {
 	zzReach("end")
 }
 
+// zzC03Program: the whole-program entry point Arch.Assembler on a text with comment and blank lines at the
+// positions given by mask (bit k: a comment before instruction k, bit k+8: a blank line after it): one word of the
+// architecture's width per instruction line, nothing for the other lines (concrete text: the byte-wise line splitter of Arch.Assembler is the subject).
+func zzC03Program(mask int) {
+	m := zzMachine(8, 1, 1, 1, 0, 3, "inc,j,nop,rset")
+	instr := []string{"rset r0 5", "inc r0", "nop", "j 1"}
+	text := ""
+	for k, l := range instr {
+		if mask>>uint(k)&1 == 1 {
+			text += "# note " + strconv.Itoa(k) + "\n"
+		}
+		text += l + "\n"
+		if mask>>uint(k+8)&1 == 1 {
+			text += "\n"
+		}
+	}
+	prog, err := m.Arch.Assembler([]byte(text))
+	zzAssert("program-accepted", err == nil)
+	if err != nil {
+		return
+	}
+	zzAssert("one-word-per-instruction", len(prog.Slocs) == len(instr))
+	W := m.Max_word()
+	for _, w := range prog.Slocs {
+		zzAssert("every-word-has-the-architecture-width", len(w) == W)
+	}
+	for k, l := range instr {
+		if k < len(prog.Slocs) {
+			one, e1 := m.Arch.Assembler_process_line([]byte(l))
+			zzAssert("word-is-the-line's-encoding", e1 == nil && prog.Slocs[k] == one)
+		}
+	}
+	zzReach("end")
+}
+
 func zzDispatch(name string, args []string) {
 	atoi := func(s string) int { v, _ := strconv.Atoi(s); return v }
 	switch name {
+	case "zzC03Program":
+		zzC03Program(atoi(args[0]))
 	case "zzC03Bits":
 		zzC03Bits(atoi(args[0]), atoi(args[1]))
 	case "zzC03":
